@@ -116,6 +116,19 @@ def select_walks(walks, n, rng, observe=OBSERVE):
 
 
 def run_sdp(ctx, prop, configs, nwalk_q, nwalk_t, own_preds):
+    r = sdp_traces(ctx, configs, nwalk_q, nwalk_t, own_preds)
+    return vlib.finish(ctx, "model_checking", rule=RULE, distinct_nontrivial=r["shapes"], exhaustive=False, replay_of=r["replay_of"])
+
+
+RULE = ("histories = seeded TLC simulation of PeerConn.tla (pair of endpoints; add/remove track, add transceiver, stop, "
+        "data channel, exchanges started by either side, unapplied offers) under several configurations, plus "
+        "TLC-sampled synthetic remote offers (SynthOffer.tla) with local pre-state and follow-up; every description "
+        "returned by CreateOffer/CreateAnswer on the real pair is judged by TLC; distinct = distinct (operation, "
+        "configuration, section shape) of the judged descriptions")
+
+
+def sdp_traces(ctx, configs, nwalk_q, nwalk_t, own_preds):
+    """Generate, replay and validate the SDP family; sets ctx.viol and the coverage numbers, returns what finish needs."""
     quick = ctx.quick
     # 1. exhaustive check of the intended bookkeeping on the generative model
     vlib.tlc_model(ctx, "PeerConn", "PeerConn_MC", workers=12, timeout=1500)
@@ -190,11 +203,4 @@ def run_sdp(ctx, prop, configs, nwalk_q, nwalk_t, own_preds):
         bad = [l for l in ls if l.get("seq") and l["ev"] == "desc"][-3:]
         return {"behaviour": beh[v["trace"]], "recorded": slim, "last_descriptions": bad}
 
-    return vlib.finish(
-        ctx, "model_checking",
-        rule="histories = seeded TLC simulation of PeerConn.tla (pair of endpoints; add/remove track, add transceiver, stop, "
-             "data channel, exchanges started by either side, unapplied offers) under several configurations, plus "
-             "TLC-sampled synthetic remote offers (SynthOffer.tla) with local pre-state and follow-up; every description "
-             "returned by CreateOffer/CreateAnswer on the real pair is judged by TLC; distinct = distinct (operation, "
-             "configuration, section shape) of the judged descriptions",
-        distinct_nontrivial=len(shapes), exhaustive=False, replay_of=replay_of)
+    return {"shapes": len(shapes), "replay_of": replay_of, "beh": beh, "lines": lines}
